@@ -235,8 +235,8 @@ int main(int argc, char** argv) {
         if (!(is >> entry >> split >> p >> os >> mwmaf >> fseq >> fpar >> mink >> minn >> size >> k)) {
             puts("BAD-CASE"); fflush(stdout); continue;
         }
-        // mwma field = layout * 100 + profile * 10 + MWMA constant
-        long layout = mwmaf / 100, profile = (mwmaf / 10) % 10, mwma = mwmaf % 10;
+        // mwma field = kind * 1000 + layout * 100 + profile * 10 + MWMA constant (kind: which binary the check feeds the case to)
+        long layout = (mwmaf / 100) % 10, profile = (mwmaf / 10) % 10, mwma = mwmaf % 10;   // the thousands digit selects the binary
         const bool neg = (profile == 2);
         // memory regimes.  *_sentinels entry points (entry >= 2): every sequence in its own heap block, followed by
         // the sentinel the caller owes.  Other entry points: NO sentinel; layout 0 = every sequence in its own exactly
